@@ -38,6 +38,8 @@ type memConn struct {
 	out     []byte
 	closed  bool
 	waiting bool
+	// writeErr, when set, makes every Write fail: the broker cannot answer this client any more
+	writeErr error
 }
 
 func newMemConn() *memConn {
@@ -68,6 +70,9 @@ func (c *memConn) Write(p []byte) (int, error) {
 	if c.closed {
 		return 0, io.ErrClosedPipe
 	}
+	if c.writeErr != nil {
+		return 0, c.writeErr
+	}
 	c.out = append(c.out, p...)
 	return len(p), nil
 }
@@ -90,6 +95,12 @@ func (c *memConn) feed(b []byte) {
 	c.in = append(c.in, b...)
 	c.waiting = false
 	c.cond.Broadcast()
+	c.mu.Unlock()
+}
+
+func (c *memConn) failWrites() {
+	c.mu.Lock()
+	c.writeErr = io.ErrShortWrite
 	c.mu.Unlock()
 }
 
@@ -515,6 +526,7 @@ type rsConnect struct {
 	willDly  uint32
 	willRet  bool
 	username string
+	recvMax  uint16 // Receive Maximum of the client (MQTT 5), 0 = not given
 }
 
 func (b *rsBroker) connect(o rsConnect) *rsClient {
@@ -527,6 +539,7 @@ func (b *rsBroker) connect(o rsConnect) *rsClient {
 	if o.ver == 5 {
 		pk.Properties.SessionExpiryInterval = o.sei
 		pk.Properties.SessionExpiryIntervalFlag = o.seiFlag
+		pk.Properties.ReceiveMaximum = o.recvMax
 	}
 	if o.will {
 		pk.Connect.WillFlag = true
